@@ -204,6 +204,97 @@ def _wellformed(rep, fi, blocks, assigns, report=True, via_helper=False):
     return good_tests
 
 
+def _strict_received(fi, call, callee):
+    """(True | False | None, reason): does the solver entry called at ``call`` receive the caller's ``strict`` parameter?
+    Explicit keyword, positional slot, or a `**mapping` whose literal definition in the caller carries the key; the
+    caller's own **kwargs can never hold it (strict is a named parameter of the caller)."""
+    a = fi.node.args
+    caller_params = {x.arg for x in a.args + a.kwonlyargs}
+    if "strict" not in caller_params:
+        return False, "the caller has no `strict` parameter"
+    asg = local_assignments(fi.node)
+
+    def is_strict(e, depth=0):
+        if isinstance(e, ast.Name):
+            if e.id == "strict":
+                return len(asg.get("strict", [])) == 0 or None
+            if depth < 3 and len(asg.get(e.id, [])) == 1 and isinstance(asg[e.id][0], ast.expr):
+                return is_strict(asg[e.id][0], depth + 1)
+            return None
+        if isinstance(e, ast.Call) and dotted(e.func) == "bool" and len(e.args) == 1:
+            return is_strict(e.args[0], depth + 1)
+        if isinstance(e, ast.Constant):
+            return False
+        return None
+
+    # positional
+    cps = [x.arg for x in callee.node.args.args]
+    if "strict" in cps and len(call.args) > cps.index("strict") and not any(isinstance(x, ast.Starred) for x in call.args):
+        r = is_strict(call.args[cps.index("strict")])
+        return r, "positional argument"
+    for k in call.keywords:
+        if k.arg == "strict":
+            r = is_strict(k.value)
+            return (r, f"strict={src(k.value)}")
+
+    def mapping_has(e, depth=0):
+        """True/False/None: the mapping expression carries key 'strict' bound to the caller's strict."""
+        if isinstance(e, ast.Name):
+            if a.kwarg is not None and e.id == a.kwarg.arg and not asg.get(e.id):
+                return False
+            mutated = any(isinstance(n, ast.Subscript) and isinstance(n.ctx, (ast.Store, ast.Del)) and isinstance(n.value, ast.Name) and n.value.id == e.id for n in walk_local(fi.node)) or \
+                any(isinstance(n, ast.Call) and isinstance(n.func, ast.Attribute) and isinstance(n.func.value, ast.Name) and n.func.value.id == e.id and n.func.attr in ("update", "pop", "setdefault", "clear", "popitem") for n in walk_local(fi.node))
+            if mutated or depth > 3 or len(asg.get(e.id, [])) != 1 or not isinstance(asg[e.id][0], ast.expr):
+                return None
+            return mapping_has(asg[e.id][0], depth + 1)
+        if isinstance(e, ast.Dict):
+            res = False
+            for k, v in zip(e.keys, e.values):
+                if k is None:
+                    r = mapping_has(v, depth + 1)
+                    if r is None:
+                        return None
+                    res = r or res          # a later ** cannot remove the key, and kwargs cannot hold it
+                elif isinstance(k, ast.Constant):
+                    if k.value == "strict":
+                        r = is_strict(v)
+                        if r is None:
+                            return None
+                        res = r
+                else:
+                    return None
+            return res
+        if isinstance(e, ast.Call) and dotted(e.func) == "dict":
+            res = False
+            for x in e.args:
+                r = mapping_has(x, depth + 1)
+                if r is None:
+                    return None
+                res = r or res
+            for k in e.keywords:
+                if k.arg is None:
+                    r = mapping_has(k.value, depth + 1)
+                    if r is None:
+                        return None
+                    res = r or res
+                elif k.arg == "strict":
+                    r = is_strict(k.value)
+                    if r is None:
+                        return None
+                    res = r
+            return res
+        return None
+
+    got = False
+    for k in call.keywords:
+        if k.arg is None:
+            r = mapping_has(k.value)
+            if r is None:
+                return None, f"**{src(k.value)[:30]}"
+            got = got or r
+    return got, ("carried by a ** mapping" if got else "neither a keyword nor a key of the mappings it spreads")
+
+
 def check(prog, rep):
     bcs = backend_calls(prog)
     if not bcs:
@@ -281,12 +372,13 @@ def check(prog, rep):
             nm = dotted(c.func)
             if nm in entry_names:
                 ncalls += 1
-                kw = {k.arg: k.value for k in c.keywords if k.arg}
-                caller_params = {a.arg for a in fi.node.args.args + fi.node.args.kwonlyargs}
-                ok = "strict" in kw and isinstance(kw["strict"], ast.Name) and kw["strict"].id == "strict" and "strict" in caller_params
-                rep.ob("R18.2", f"{fi.qual.split(':')[1]}->{nm}", ok,
-                       "forwards strict=strict" if ok else f"call {src(c)[:70]} does not forward the caller's `strict`: strict=True would be dropped on this route",
-                       loc=f"{fi.module.rel}:{c.lineno}", detail=f"line-order-{ncalls}" if False else _route_key(c))
+                verdict, why = _strict_received(fi, c, entry_names[nm])
+                if verdict is None:
+                    rep.undecided(f"{fi.qual.split(':')[1]}->{nm}: what the call passes as `strict` is not interpretable ({why})")
+                    continue
+                rep.ob("R18.2", f"{fi.qual.split(':')[1]}->{nm}", verdict,
+                       f"forwards the caller's strict ({why})" if verdict else f"call {src(c)[:70]} does not forward the caller's `strict` ({why}): strict=True would be dropped on this route",
+                       loc=f"{fi.module.rel}:{c.lineno}", detail=_route_key(c), robust=True)
     rep.saw("calls to solver entries", ncalls)
 
     # ---- R18.3 binary => [0, 1]
